@@ -10,7 +10,8 @@ import ast
 from ..core import rule, AnalysisError
 from ..engine import emit, typestate
 from ..engine import pattern as P
-from ..engine.facts import dotted, const, src, walk_func
+from ..engine.facts import dotted, const, src, walk_func, ancestors
+from .common import contains
 from . import skeletons as sk
 from .common import pn, access_paths
 from . import c13  # registers skeleton-typestate and runtime-pairing for C05
@@ -332,3 +333,51 @@ def declares_order(ctx):
         last_lookup = max([lp.lineno for lp, c, l in order if l] or [0])
         ctx.check(last_lookup < first_closure or any(c and l for _, c, l in order), "loop-order", db.where(fn), "nested def closures are emitted before the context look-ups", "look-up loop precedes closure loop")
     ctx.require(found >= 1, "write_variable_declares: emitting loop not found")
+
+
+@rule("C05.attribute-pieces", min_instances=5, props=["C07"])
+def attribute_pieces(ctx):
+    """an attribute value that mixes text and ${} becomes the `+`-concatenation, in order, of every non-empty piece: expressions parenthesised and unchanged, every other piece (blank ones included) as its repr"""
+    db = ctx.db
+    from ..engine import rx
+    from .c01 import _flags_value
+    from ..engine.facts import str_value
+    fn = db.func("parsetree.Tag._parse_attributes")
+    loops = [n for n in ast.walk(fn) if isinstance(n, ast.For) and isinstance(n.target, ast.Name) and P.has(n.iter, "re.compile($r, $f).split(self.attributes[$k])")]
+    ctx.require(len(loops) == 1, "_parse_attributes: the loop over the pieces of an expression attribute was not found")
+    lp = loops[0]
+    x = lp.target.id
+    env = {}
+    P.matches(lp.iter, "re.compile($r, $f).split(self.attributes[$k])", env)
+    pat, fl = str_value(env["r"][1]), _flags_value(env["f"][1])
+    ctx.require(pat is not None, "split regex is not constant")
+    sub = rx.parse(pat, fl)
+    items = list(sub)
+    ctx.check(len(items) == 1 and items[0][0] == rx.OP.SUBPATTERN and items[0][1][0] == 1, "split.keeps-expressions", db.where(lp), "the split regex %r does not capture the whole ${...}: re.split would drop the expressions" % pat, "whole ${...} captured: split keeps text and expressions in order")
+    lits = [(n_, e_) for n_, e_ in P.find(lp, "$e.append(repr(%s))" % x)]
+    ctx.check(len(lits) == 1, "literal.repr", db.where(lp), "a text piece is not appended as repr(piece)", "text piece -> repr(piece)")
+    if lits:
+        call = lits[0][0]
+        guards = []
+        child = call
+        for a_ in ancestors(call):
+            if a_ is lp:
+                break
+            if isinstance(a_, ast.If):
+                guards.append((a_, any(contains(b_, child) for b_ in a_.body)))
+            child = a_
+        # innermost guard decides which text pieces are kept: only the empty string may be dropped
+        ok = bool(guards) and guards[0][1] and (src(guards[0][0].test) in (x, "%s != ''" % x, "len(%s)" % x, "len(%s) > 0" % x))
+        ctx.check(ok, "literal.every-non-empty", db.where(guards[0][0]) if guards else db.where(call), "text pieces are kept under `%s`: pieces other than the empty string (e.g. the blank between two expressions) are dropped from the value" % (src(guards[0][0].test) if guards else "?"), "every non-empty text piece kept")
+    exprs = P.find(lp, "$e.append('(%s)' % $m.group(1))")
+    ctx.check(len(exprs) == 1, "expression.parenthesised", db.where(lp), "an expression piece is not appended as '(' + expression + ')' unchanged", "expression -> (expression)")
+    outs = [e_["e"][0] for _n, e_ in lits + exprs]
+    joins = P.find(fn, "self.parsed_attributes[$k] = ' + '.join($e) or repr('')")
+    ctx.check(bool(joins) and len(set(outs)) == 1 and joins[0][1]["e"][0] == outs[0], "joined-in-order", db.where(fn), "the pieces are not joined with + in the order they were found", "' + '.join(pieces)")
+    mutators = [c_ for c_ in ast.walk(fn) if isinstance(c_, ast.Call) and isinstance(c_.func, ast.Attribute) and c_.func.attr in ("sort", "reverse", "insert", "pop", "remove") and outs and _dumpname(c_.func.value) == outs[0]]
+    ctx.check(not mutators, "no-reorder", db.where(mutators[0]) if mutators else db.where(fn), "the list of pieces is reordered / pruned before it is joined", "pieces untouched between collection and join")
+
+
+def _dumpname(n):
+    from ..engine.pattern import _dump
+    return _dump(n)
